@@ -10,12 +10,14 @@ checks = [ID]
 tests = None
 variant = ''
 goflags = ''
+patch_override = ''
 i = 0
 while i < len(extra):
     if extra[i] == '--check': checks = extra[i+1].split(','); i += 2
     elif extra[i] == '--tests': tests = extra[i+1]; i += 2
     elif extra[i] == '--variant': variant = extra[i+1]; i += 2
     elif extra[i] == '--goflags': goflags = extra[i+1]; i += 2
+    elif extra[i] == '--patch': patch_override = extra[i+1]; i += 2
     else: i += 1
 wt = f'/tmp/seed/{ID}{variant}'
 env = dict(os.environ, GOFLAGS='-mod=mod', GOPROXY='off', GOTOOLCHAIN='auto')
@@ -41,6 +43,9 @@ dst = f'/verif/seeded/{ID}{variant}'
 shutil.rmtree(dst, ignore_errors=True)
 os.makedirs(dst)
 shutil.copy(f'{wt}/SEED/patch.diff', dst)
+if patch_override:
+    shutil.copy(f'{wt}/SEED/patch.diff', f'{dst}/patch_as_written.diff')
+    shutil.copy(patch_override, f'{dst}/patch.diff')
 shutil.copytree(f'{wt}/SEED/demo', f'{dst}/demo')
 if os.path.exists(f'{wt}/SEED/NOTES.md'): shutil.copy(f'{wt}/SEED/NOTES.md', dst)
 res = {}
